@@ -124,9 +124,12 @@ def c_plumb(content: str, path: str, encoding: str, norm: bool, silent: bool, mo
     """
     seen = {}
 
-    def fake_open(p, mode="r", encoding=None):
+    def fake_open(p, mode="r", encoding=None, **kw):
         seen["open"] = (p, mode, encoding)
+        seen["open_kw"] = kw
         return _FakeFile(content)
+
+    settings = {"normalize_names": norm, "silent": silent}
 
     class Recorder:
         def __init__(self, text, **kw):
@@ -140,15 +143,16 @@ def c_plumb(content: str, path: str, encoding: str, norm: bool, silent: bool, mo
     old_open, old_cls = dp.__dict__.get("open"), dp.DDLParser
     dp.open, dp.DDLParser = fake_open, Recorder
     try:
-        out = dp.parse_from_file(path, encoding, {"normalize_names": norm, "silent": silent},
-                                 output_mode=VALID_MODES[mode_i], group_by_type=group)
+        out = dp.parse_from_file(path, encoding, settings, output_mode=VALID_MODES[mode_i], group_by_type=group)
     finally:
         dp.DDLParser = old_cls
         if old_open is None:
             del dp.open
         else:
             dp.open = old_open
-    return (out == ["RESULT"] and seen["open"] == (path, "r", encoding) and seen["text"] == content
+    # text mode with universal newlines (CRLF files read like LF files), caller's settings dict untouched
+    return (out == ["RESULT"] and seen["open"] == (path, "r", encoding) and seen["open_kw"] == {} and seen["text"] == content
+            and settings == {"normalize_names": norm, "silent": silent}
             and seen["init"] == {"normalize_names": norm, "silent": silent}
             and seen["run"] == {"file_path": path, "output_mode": VALID_MODES[mode_i], "group_by_type": group})
 
@@ -156,19 +160,23 @@ def c_plumb(content: str, path: str, encoding: str, norm: bool, silent: bool, mo
 def api_c_plumb(content, path, encoding, norm, silent, mode_i, group):
     import tempfile
     from simple_ddl_parser import DDLParser, parse_from_file
-    text = "CREATE TABLE t (a int, b varchar(3));\n-- c" + content + "\nCREATE SEQUENCE q START 1;" + content
+    text = "CREATE TABLE t (\r\na int,\r\nb varchar(3));\r\n-- c" + content + "\r\nCREATE SEQUENCE q START 1;" + content
     d = tempfile.mkdtemp()
     fp = os.path.join(d, "in.sql")
     with open(fp, "w", encoding="utf-8", newline="") as f:
         f.write(text)
     with open(fp, "r", encoding="utf-8") as f:
         decoded = f.read()
+    settings = {"normalize_names": norm, "silent": False}
     try:
-        a = parse_from_file(fp, "utf-8", {"normalize_names": norm, "silent": True}, output_mode=VALID_MODES[mode_i], group_by_type=group)
+        a = parse_from_file(fp, "utf-8", settings, output_mode=VALID_MODES[mode_i], group_by_type=group)
+        a2 = parse_from_file(fp, "utf-8", settings, output_mode=VALID_MODES[mode_i], group_by_type=group)
+        if a2 != a or settings != {"normalize_names": norm, "silent": False}:
+            a = ["second call with the same settings dict differs", a, a2, settings]
     except Exception as e:
         a = f"{type(e).__name__}: {e}"
     try:
-        b = DDLParser(decoded, normalize_names=norm, silent=True).run(output_mode=VALID_MODES[mode_i], group_by_type=group)
+        b = DDLParser(decoded, normalize_names=norm, silent=False).run(output_mode=VALID_MODES[mode_i], group_by_type=group)
     except Exception as e:
         b = f"{type(e).__name__}: {e}"
     import shutil
@@ -273,3 +281,106 @@ def c_cli(path: str, target: str, no_dump: bool, v: bool, mode_i: int) -> bool:
         cli_mod.parse_from_file = old
         cli_mod.pprint.pprint = oldpp
     return seen["fp"] == path and seen["kw"] == {"dump": not no_dump, "dump_path": target, "output_mode": VALID_MODES[mode_i]}
+
+
+def c_main(n1: str, n2: str, n3: str, is_file: bool) -> bool:
+    """
+    cli.main: a file path is parsed once; a directory is walked and every entry with a DDL
+    extension is parsed exactly once, with its own path <dir>/<entry>.
+
+    pre: len(n1) <= 5 and len(n2) <= 5 and len(n3) <= 5
+    pre: "/" not in n1 and "/" not in n2 and "/" not in n3
+    post: _
+    """
+    calls = []
+    a = _Args()
+    a.ddl_file_path, a.target, a.no_dump, a.v, a.output_mode = "d", "t", True, False, "sql"
+
+    class FakeCli:
+        def parse_args(self):
+            return a
+
+    old = (cli_mod.cli, cli_mod.run_for_file, cli_mod.os.path.exists, cli_mod.os.path.isfile, cli_mod.os.listdir)
+    cli_mod.cli = lambda: FakeCli()
+    cli_mod.run_for_file = lambda args: calls.append(args.ddl_file_path)
+    cli_mod.os.path.exists = lambda p: True
+    cli_mod.os.path.isfile = lambda p: is_file
+    cli_mod.os.listdir = lambda p: [n1, n2, n3]
+    try:
+        cli_mod.main()
+    finally:
+        cli_mod.cli, cli_mod.run_for_file, cli_mod.os.path.exists, cli_mod.os.path.isfile, cli_mod.os.listdir = old
+    if is_file:
+        return calls == ["d"]
+    want = ["d/" + n for n in (n1, n2, n3) if cli_mod.correct_extension(n)]
+    return calls == want
+
+
+def api_c_main(n1, n2, n3, is_file):
+    import shutil
+    import sys
+    import tempfile
+    d = tempfile.mkdtemp()
+    src = os.path.join(d, "src")
+    os.makedirs(src)
+    for i, nm in enumerate(["a.sql", "b.ddl", "c.hql"]):
+        open(os.path.join(src, nm), "w").write(f"CREATE TABLE t{i} (a int);\n")
+    target = os.path.join(d, "out")
+    argv = sys.argv
+    sys.argv = ["sdp", src, "-t", target]
+    try:
+        cli_mod.main()
+        err = None
+    except BaseException as e:
+        err = f"{type(e).__name__}: {e}"
+    finally:
+        sys.argv = argv
+    made = sorted(os.listdir(target)) if os.path.isdir(target) else []
+    shutil.rmtree(d, ignore_errors=True)
+    return {"dumped": made, "error": err, "reproduced": made != ["a_schema.json", "b_schema.json", "c_schema.json"] or err is not None}
+
+
+def c_dump_file(kind: int, name: str) -> bool:
+    """
+    dump_data_to_file writes exactly the JSON encoding of what it is given - a list (flat
+    result), a dict (group_by_type result) or a single table dict - into <dir>/<name>_schema.json.
+
+    pre: 0 <= kind <= 2
+    pre: 1 <= len(name) <= 2 and "/" not in name
+    post: _
+    """
+    import json
+    import simple_ddl_parser.output.core as core
+    written = {}
+
+    class W:
+        def __init__(self, p):
+            self.p = p
+            written[p] = ""
+
+        def write(self, s):
+            written[self.p] += s
+
+        def __enter__(self):
+            return self
+
+        def __exit__(self, *a):
+            return False
+
+    data = [[{"table_name": "t", "columns": []}], {"tables": [{"table_name": "t"}], "types": []}, {"table_name": "t", "columns": []}][kind]
+    old = (core.__dict__.get("open"), core.os.path.isdir, core.os.makedirs)
+    core.open = lambda p, mode="r": W(p)
+    core.os.path.isdir = lambda p: True
+    try:
+        core.dump_data_to_file(name, "dir", data)
+    finally:
+        core.os.path.isdir, core.os.makedirs = old[1], old[2]
+        if old[0] is None:
+            del core.open
+        else:
+            core.open = old[0]
+    return list(written) == ["dir/" + name + "_schema.json"] and json.loads(written["dir/" + name + "_schema.json"]) == data
+
+
+def api_c_dump_file(kind, name):
+    return api_c_dump(1, True, "ab", "sql", True, kind == 1)
